@@ -1486,6 +1486,53 @@ fn fixed_cases() -> Vec<(String, FileCase)> {
                 }
             }
         }
+        // (d') the scratch-forbidding instruction in every spelling, before / after the scratch use, and (file-wide
+        //      flavour) in another sub than the one needing the register
+        if lang.anti_op.is_some() {
+            for form in 0..5u8 {
+                for after in [false, true] {
+                    let anti = if form == 0 { St::Anti } else { St::AntiF(form) };
+                    let other = lang.other_i[0];
+                    let needs = St::Ins { op: 901, args: vec![Ex::Bin(Box::new(reg(other, Ty::I)), '+', Box::new(Ex::ImmI(1)))] };
+                    {
+                        let body = if after { vec![needs.clone(), anti.clone()] } else { vec![anti.clone(), needs.clone()] };
+                        out.push(one(&format!("anti-form{}-{}", form, if after { "after" } else { "before" }),
+                                     vec![Sub { name: "sub0".into(), params: vec![], body, vars: vec![] }], nosig(1)));
+                    }
+                    if lang.anti_file {
+                        let (b0, b1) = if after { (vec![needs.clone()], vec![anti.clone(), St::Ins { op: 900, args: vec![] }]) }
+                                       else { (vec![anti.clone(), St::Ins { op: 900, args: vec![] }], vec![needs.clone()]) };
+                        out.push(one(&format!("anti-form{}-othersub-{}", form, if after { "after" } else { "before" }),
+                                     vec![Sub { name: "sub0".into(), params: vec![], body: b0, vars: vec![] },
+                                          Sub { name: "sub1".into(), params: vec![], body: b1, vars: vec![] }], nosig(2)));
+                    }
+                }
+            }
+        }
+        // (d'') the register the pool would hand out next is named only in calls that carry pseudo-arguments
+        if lang.pool_i.len() >= 2 {
+            for (k, (mask, arg0, pop)) in [(true, None, false), (false, Some(3), false), (true, Some(0), true)].into_iter().enumerate() {
+                let mut b = B::new();
+                let x = b.var(Ty::I, false);
+                let first = lang.pool_i[0];
+                let o = lang.other_i[0];
+                let call = St::InsP { op: 901, args: vec![reg(first, Ty::I)], mask, arg0, pop };
+                let body = vec![
+                    call.clone(),
+                    St::Decl { v: x, init: Some(Ex::Bin(Box::new(Ex::Bin(Box::new(reg(o, Ty::I)), '+', Box::new(Ex::ImmI(1)))), '*',
+                                                      Box::new(Ex::Bin(Box::new(reg(o, Ty::I)), '+', Box::new(Ex::ImmI(2)))))) },
+                    St::Ins { op: 901, args: vec![loc(x, Ty::I)] },
+                    call,
+                ];
+                out.push(one(&format!("reg-only-in-pseudo-call-{}", k), vec![Sub { name: "sub0".into(), params: vec![], body, vars: b.vars }], nosig(1)));
+            }
+            // a raw blob next to locals
+            let mut b = B::new();
+            let x = b.var(Ty::I, false);
+            let body = vec![St::Decl { v: x, init: Some(Ex::ImmI(1)) }, St::InsBlob { op: 903, blob: "0100000002000000".into(), mask: Some(0), arg0: None },
+                            St::Ins { op: 901, args: vec![loc(x, Ty::I)] }];
+            out.push(one("blob-instr", vec![Sub { name: "sub0".into(), params: vec![], body, vars: b.vars }], nosig(1)));
+        }
         // (e) parameters: named, used, next to locals and temporaries
         if let Some((_, _, maxp)) = lang.param_base {
             let mut b = B::new();
